@@ -522,12 +522,14 @@ package eventlogger
 //@   assigns Event.Formatted, map:map[string][]byte, held, lockacq
 //@   ensures C14/last-writer-wins: e.Formatted != nil && (formatType in e.Formatted) && e.Formatted[formatType] == formattedValue
 //@   ensures C14/other-formats-kept: forall k string :: k != formatType && old(e.Formatted) != nil ==> (k in e.Formatted) == old(k in e.Formatted) && e.Formatted[k] == old(e.Formatted[k])
+//@   ensures C14+C19/single-critical-section: acquisitions(e.l) == old(acquisitions(e.l)) + 1
 //@   ensures unlocked: unchanged("held")
 
 //@ func (*Event).Format(formatType) (val, ok)
 //@   requires e != nil && held(e.l) == 0
 //@   assigns held, lockacq
 //@   ensures C13+C14/reads-the-table: ok == (e.Formatted != nil && (formatType in e.Formatted)) && (ok ==> val == e.Formatted[formatType]) && (!ok ==> len(val) == 0)
+//@   ensures C14+C19/single-critical-section: acquisitions(e.l) == old(acquisitions(e.l)) + 1
 //@   ensures unlocked: unchanged("held")
 
 // ---- FileSink (C08, C13, C15) ----
@@ -629,6 +631,8 @@ package eventlogger
 
 //@ func (*FileSink).Process(_, e) (out, err)
 //@   requires fs != nil && e != nil && held(fs.l) == 0 && held(e.l) == 0 && fs.MaxFiles >= 0 && fs.BytesWritten >= 0
+//@   atcall (*bytes.Reader).WriteTo#1 C08+C13+C19/written-under-the-sink-lock: held(fs.l) == 2
+//@   atcall (*bytes.Reader).WriteTo#2 C08+C13+C19/rewritten-under-the-sink-lock: held(fs.l) == 2
 //@   ensures C13/sinks-forward-nothing: out == nil
 //@   ensures C13/dev-null-accepts-without-effect: fs.Path == "/dev/null" ==> err == nil && ev_n == old(ev_n)
 //@   ensures C13/unformatted-event-is-an-error-without-effect: fs.Path != "/dev/null" && !(old(e.Formatted) != nil && old(sinkFormat(fs) in e.Formatted)) ==> err != nil && ev_n == old(ev_n)
@@ -637,4 +641,46 @@ package eventlogger
 //@   ensures C08/writes-go-to-the-active-file: fs.Path != "/dev/null" && !specialPath(fs) && err == nil ==> ev_a(ev_n - 1, 0) == fs.f && fs.f != nil
 //@   ensures C15/bytes-counted-after-a-first-successful-write: fs.Path != "/dev/null" && err == nil && events("sys:write") == old(events("sys:write")) + 1 && !(fs.Path == "/dev/stdout" || fs.Path == "/dev/stderr") ==> fs.BytesWritten >= ev_a(ev_n - 1, 5)
 //@   ensures C08/at-most-two-write-attempts: events("sys:write") <= old(events("sys:write")) + 2
+//@   ensures unlocked: unchanged("held")
+
+// ---- filters and JSON formatters (C14) ----
+// The encoded line is jsonLine(created_at, event_type, payload) := uf("json.line4", type, indent, fields...):
+// an uninterpreted function of exactly the event's creation time, type and payload (tag, value).
+
+//@ functype Predicate(e) (keep, err)
+//@   requires C12/callback-free: cbfree()
+//@   assigns ctxdone
+
+//@ functype JSONFormatterFilter.Predicate(e) (keep, err)
+//@   requires C12/callback-free: cbfree()
+//@   assigns ctxdone
+
+//@ func (*Filter).Process(ctx, e) (out, err)
+//@   requires f != nil && f.Predicate != nil && e != nil
+//@   requires C12/callback-free: cbfree()
+//@   assigns ev, ctxdone
+//@   ensures C14/predicate-consulted-once: calls("fn:Predicate") == old(calls("fn:Predicate")) + 1 && ev_n == old(ev_n) + 1 && ev_a(old(ev_n), 2) == e
+//@   ensures C14/forwarded-iff-predicate-true: (err == nil && out == e) <==> (ev_a(old(ev_n), 6) == 0 && ev_a(old(ev_n), 5) == 1)
+//@   ensures C14/dropped-or-error-forwards-nothing: !(ev_a(old(ev_n), 6) == 0 && ev_a(old(ev_n), 5) == 1) ==> out == nil && ((err != nil) <==> (ev_a(old(ev_n), 6) != 0))
+
+//@ pure jsonLine(e *Event) string = uf("append", 0, uf("json{created_at,event_type,payload}", "", e.CreatedAt, e.Type, tagof(e.Payload), valof(e.Payload)))
+
+//@ func (*JSONFormatter).Process(ctx, e) (out, err)
+//@   requires e != nil && held(e.l) == 0
+//@   assigns ev, Event.Formatted, map:map[string][]byte, held, lockacq, buf, enc, bytes
+//@   ensures C14/one-json-line-of-time-type-payload: err == nil ==> out == e && e.Formatted != nil && ("json" in e.Formatted) && content(e.Formatted["json"]) == jsonLine(e)
+//@   ensures C14/unencodable-payload-forwards-nothing: err != nil ==> out == nil && e.Formatted == old(e.Formatted) && (old(e.Formatted) != nil ==> (forall k string :: (k in e.Formatted) == old(k in e.Formatted) && e.Formatted[k] == old(e.Formatted[k])))
+//@   ensures C14/event-itself-untouched: e.Type == old(e.Type) && e.Payload == old(e.Payload) && e.CreatedAt == old(e.CreatedAt)
+//@   ensures C14/other-formats-kept: forall k string :: k != "json" && old(e.Formatted) != nil ==> (k in e.Formatted) == old(k in e.Formatted) && e.Formatted[k] == old(e.Formatted[k])
+//@   ensures unlocked: unchanged("held")
+
+//@ func (*JSONFormatterFilter).Process(ctx, e) (out, err)
+//@   requires w != nil && e != nil && held(e.l) == 0
+//@   requires C12/callback-free: cbfree()
+//@   assigns ev, ctxdone, Event.Formatted, map:map[string][]byte, held, lockacq, buf, enc, bytes
+//@   ensures C14/one-json-line-of-time-type-payload: out != nil ==> err == nil && out == e && e.Formatted != nil && ("json" in e.Formatted) && content(e.Formatted["json"]) == jsonLine(e)
+//@   ensures C14/forwarded-iff-no-predicate-or-predicate-true: w.Predicate == nil ==> ((out == e && err == nil) || (out == nil && err != nil && calls("fn:JSONFormatterFilter.Predicate") == old(calls("fn:JSONFormatterFilter.Predicate"))))
+//@   ensures C14/predicate-decides: calls("fn:JSONFormatterFilter.Predicate") == old(calls("fn:JSONFormatterFilter.Predicate")) + 1 ==> ((out == e && err == nil) <==> (ev_a(ev_n - 1, 6) == 0 && ev_a(ev_n - 1, 5) == 1)) && ((err != nil) <==> (ev_a(ev_n - 1, 6) != 0)) && ev_kind(ev_n - 1) == "callfn:JSONFormatterFilter.Predicate"
+//@   ensures C14/nothing-forwarded-otherwise: out == nil || out == e
+//@   ensures C14/event-itself-untouched: e.Type == old(e.Type) && e.Payload == old(e.Payload) && e.CreatedAt == old(e.CreatedAt)
 //@   ensures unlocked: unchanged("held")
